@@ -54,6 +54,23 @@ VERIF = os.path.dirname(os.path.dirname(os.path.abspath(__file__)))
 _RUST_WORDS = {"if", "while", "for", "match", "return", "loop", "fn", "let", "Some", "None", "Ok", "Err", "assert", "proof", "forall", "exists", "drop", "matches"}
 
 
+def _split_params(ptxt):
+    """Split a parameter list at top-level commas; `<..>` of generic types nests (in a parameter list `<` is never
+    a comparison), `->` is not a closing bracket."""
+    m_ = mask(ptxt)
+    parts, d, last = [], 0, 0
+    for i, ch in enumerate(m_):
+        if ch in "([{<":
+            d += 1
+        elif ch in ")]}" or (ch == ">" and (i == 0 or m_[i - 1] != "-")):
+            d -= 1
+        elif ch == "," and d == 0:
+            parts.append(ptxt[last:i])
+            last = i + 1
+    parts.append(ptxt[last:])
+    return parts
+
+
 class Undecided(Exception):
     """Extraction could not be completed (lost anchor, unsupported construct)."""
 
@@ -445,7 +462,7 @@ class Gen:
                     continue
                 pc = match_close(mask(hsig), pm.end() - 1)
                 ptxt = hsig[pm.end():pc]
-                params = [x.strip() for x in split_top_level(mask(ptxt), ptxt, ",") if x.strip()]
+                params = [x.strip() for x in _split_params(ptxt) if x.strip()]
                 is_method = bool(params) and re.fullmatch(r"&?\s*(mut\s+)?self", params[0]) is not None
                 recv = mm.group(1).rstrip(". \t\n")
                 if mm.group(1) == "":
@@ -476,7 +493,7 @@ class Gen:
                 if is_method and recv != "self":
                     new = re.sub(r"(?<![\w.])self\b", recv, new)
                 for pn, a_ in zip(pnames, args):
-                    new = re.sub(r"(?<![\w.])%s\b" % re.escape(pn), "(" + a_ + ")", new)
+                    new = re.sub(r"(?<![\w.])%s\b" % re.escape(pn), a_ if re.fullmatch(r"\w+", a_) else "(" + a_ + ")", new)
                 hit = (mm.start(), cl + 1, ("({ " + new + " })") if is_block else ("(" + new + ")"), name, src.path)
                 break
             if not hit:
